@@ -265,7 +265,8 @@ StepEv ==
      ELSE IF ~Guard(s) \/ (e.op = "reload" /\ ~e.ok)
        THEN (* not a step of the model: the script should not contain it (or the file could not be loaded: the
                disk view of the previous step has already said so) *)
-            /\ (~Drifted(e) /\ e.op # "reload" => Report("DRIFT", e, [fails |-> {"step not enabled in the model"}]))
+            /\ (~Drifted(e) /\ e.op # "reload" /\ <<e.run, "lost">> \notin seen =>
+                  Report("DRIFT", e, [fails |-> {"step not enabled in the model"}]))
             /\ seen' = IF e.op = "reload" THEN seen ELSE seen \cup {<<e.run, "drift">>}
             /\ UNCHANGED vars
        ELSE /\ IF Adopts(e) THEN ReloadAdopt(e) ELSE Apply(s)
